@@ -3,7 +3,8 @@ Driver for `Model/Bridge` (C13).  One request line, one response line.
 
   new <credit> <fixed|pinned>          → ok        fresh bridge; the stream has <credit> units of credit
   script <lfill|lwrite|lflush|lshut> <answer>*   → ok        (replaces that script)
-      lfill answers:  d:<hex> | eof | p0 | p1 | e:<code>
+      lfill answers:  d:<hex> | z:<n>:<k> | eof | p0 | p1 | e:<code>
+                      (z:<n>:<k> = the n bytes k, k+1, … modulo 251: the bulk cases' large chunks)
       lwrite answers: n:<k>   | p0 | p1 | e:<code>
       lflush / lshut: ok      | p0 | p1 | e:<code>
   ev push <hex> | ev fin | ev rst | ev ack <n> | ev abort   → ok      (what reached the stream)
@@ -46,6 +47,10 @@ def readyFill (s : String) : Option Bytes :=
   if s = "eof" then some []
   else match s.splitOn ":" with
     | ["d", h] => ofHex h
+    | ["z", n, k] =>
+      match n.toNat?, k.toNat? with
+      | some n, some k => some ((List.range n).map fun i => UInt8.ofNat ((k + i) % 251))
+      | _, _ => none
     | _ => none
 
 def readyWrite (s : String) : Option Nat :=
